@@ -7,12 +7,14 @@ from harness._parsercells import make
 P = ParserAArch64()
 REGS, IMMS, MEMS = _asm.a64_registers(), _asm.a64_immediates(), _asm.a64_memory()
 # AArch64 operand order: memory operand last -> pairs are (register, anything)
-VARIANTS = REGS + [v for v in IMMS if v[1][0] != "id"] + MEMS
+VARIANTS = REGS + IMMS + MEMS
+_pick = lambda txt: [v for v in VARIANTS if v[0] == txt][0]
+LAYOUT_SET = [_pick("x0"), _pick("v7.2d"), _pick("#16"), _pick("ne"), _pick("loop"), _pick("[x1, x2, lsl #3]")]
 LONE = [v for v in IMMS if v[1][0] == "id"] + MEMS[:6] + REGS[:4]
 FILE_LINES = [("", "blank"), ("   ", "blank"), ("\t", "blank"), ("// a comment", "comment"), ("  // indented comment", "comment"), (".L5:", "label"), (".L6:   // with comment", "label"),
               (".p2align 4,,10", "directive"), ("\t.byte 213,3,32,31 // marker", "directive"), ("\tfmla\tv1.2d, v2.2d, v3.2d", "instruction"), ("ldr x1, [x2, x3, lsl #3] // load", "instruction"), ("ret", "instruction")]
 
-CELLS = make("aarch64", P, VARIANTS, LONE, _asm.A64_LAYOUTS, _asm.render_a64, _asm.line_ok, "//", ["ldr", "fmla", "b.ne"], FILE_LINES)
+CELLS = make("aarch64", P, VARIANTS, LONE, _asm.A64_LAYOUTS, _asm.render_a64, _asm.line_ok, "//", ["ldr", "fmla", "b.ne"], FILE_LINES, layout_set=LAYOUT_SET)
 
 
 # register lists and ranges are expanded to their members
